@@ -166,7 +166,7 @@ func main() {
 	r := seq.New("C14", tier, "fault_enumeration")
 	defer r.CrashGuard()
 	defer r.Watch()()
-	r.Rule = "one evaluation = one history: a destination shape (1-3 destinations of kinds plain/LevelWriter/FilteredLevelWriter, or a single direct writer), a vector of event levels, and one complete assignment of {ok,error,short write} to every (destination,event); all assignments are enumerated; distinct = distinct (shape, levels, per-destination call log, ErrorHandler log); non-trivial = at least one injected fault"
+	r.Rule = "one evaluation = one history: a destination shape (1-3 destinations of kinds plain/LevelWriter/FilteredLevelWriter, or a single direct writer), a vector of event levels, and one complete assignment of {ok,error,short write} to every (destination,event); all assignments are enumerated; entry-point passes (named level methods with Msgf/MsgFunc/Msg; Panic() recovered) repeat shapes x 1-2 events x all assignments; distinct = distinct (shape, levels, per-destination call log, ErrorHandler log); non-trivial = at least one injected fault"
 	r.Assumptions = []string{"destinations are synchronous fakes; an error outcome returns (0, err), (len, err) or (len/2, err) in rotation, a short write returns (len-1, nil), (0, nil) or (len/2, nil) in rotation", "events: 4 levels {debug, info, error, nolevel}, up to 3 (quick) / 4 (thorough) events per history"}
 
 	type shape []string
